@@ -1,6 +1,6 @@
 /-
-Model of `deap/tools/emo.py` `selSPEA2` (lines 705-821) and of the quick-select helpers
-`_randomizedSelect/_randomizedPartition/_partition` (lines 824-859), as the code is after the
+Model of `deap/tools/emo.py` `selSPEA2` (lines 708-824) and of the quick-select helpers
+`_randomizedSelect/_randomizedPartition/_partition` (lines 827-862), as the code is after the
 F10 repair (inner loop variables renamed, the parameter `k` is not clobbered).
 
 Import-free apart from `Core.Fitness` (Pareto dominance of the weighted values).
@@ -40,12 +40,12 @@ def tab2 {β : Type} (N : Nat) (f : Nat → Nat → β) : Mat β := tab N (fun i
 def look {β : Type} [Inhabited β] (l : List β) (i : Nat) : β := l.getD i default
 def look2 {β : Type} [Inhabited β] (m : Mat β) (i j : Nat) : β := look (m.getD i []) j
 
-/-! ### strength, raw fitness, the non-dominated set (emo.py:728-742) -/
+/-! ### strength, raw fitness, the non-dominated set (emo.py:731-745) -/
 
 section Strength
 variable (dom : Nat → Nat → Bool) (N : Nat)
 
-/-- What the double loop 728-735 registers: for the pair `a < b` it tests `dom a b` first and
+/-- What the double loop 731-738 registers: for the pair `a < b` it tests `dom a b` first and
 `dom b a` only in the `elif`.  `reg i j` = "the loop counted `i` as dominating `j`". -/
 def reg (i j : Nat) : Bool :=
   if i < j then dom i j else if j < i then (!dom j i) && dom i j else false
@@ -56,10 +56,10 @@ def strength (i : Nat) : Nat := ((List.range N).filter (fun j => reg dom i j)).l
 /-- `dominating_inds[i]` after the double loop (appended in ascending order of the dominator). -/
 def dominating (i : Nat) : List Nat := (List.range N).filter (fun j => reg dom j i)
 
-/-- `fits[i]` after the loop 737-739 (raw fitness: sum of the strengths of the dominators). -/
+/-- `fits[i]` after the loop 740-742 (raw fitness: sum of the strengths of the dominators). -/
 def rawFit (i : Nat) : Nat := ((dominating dom N i).map (strength dom N)).sum
 
-/-- `chosen_indices = [i for i in range(N) if fits[i] < 1]` (line 742). -/
+/-- `chosen_indices = [i for i in range(N) if fits[i] < 1]` (line 745). -/
 def chosen0 : List Nat := (List.range N).filter (fun i => decide (rawFit dom N i < 1))
 
 end Strength
@@ -68,7 +68,7 @@ end Strength
 def domW {α : Type} [LT α] [DecidableLT α] (pop : List (List α)) (i j : Nat) : Bool :=
   Fitness.dominatesLoop (pop.getD i []) (pop.getD j []) false
 
-/-! ### archive too small (emo.py:744-762) -/
+/-! ### archive too small (emo.py:747-765) -/
 
 section Fill
 variable {α : Type} [DecidableEq α] [LT α] [DecidableLT α]
@@ -77,7 +77,7 @@ variable {α : Type} [DecidableEq α] [LT α] [DecidableLT α]
 def keyLt (x y : α × Nat) : Bool :=
   if x.1 = y.1 then decide (x.2 < y.2) else decide (x.1 < y.1)
 
-/-- lines 758-762: `next_indices = [(fits[i], i) for i not in chosen]; sort;
+/-- lines 761-765: `next_indices = [(fits[i], i) for i not in chosen]; sort;
 chosen += [i for _, i in next_indices[:k - len(chosen)]]`. -/
 def fill (N : Nat) (fits : Nat → α) (k : Nat) (chosen : List Nat) : List Nat :=
   let next := ((List.range N).filter (fun i => !chosen.contains i)).map (fun i => (fits i, i))
@@ -86,13 +86,13 @@ def fill (N : Nat) (fits : Nat → α) (k : Nat) (chosen : List Nat) : List Nat 
 
 end Fill
 
-/-! ### archive too large (emo.py:764-819) -/
+/-! ### archive too large (emo.py:767-822) -/
 
 /-- An entry of the `distances` matrix. -/
 inductive DVal (α : Type) where
-  | neg1 : DVal α          -- the `-1` of line 777
+  | neg1 : DVal α          -- the `-1` of line 780
   | fin (a : α) : DVal α   -- a computed squared distance
-  | inf : DVal α           -- `float("inf")` of lines 806-807
+  | inf : DVal α           -- `float("inf")` of lines 809-810
 
 instance {α : Type} : Inhabited (DVal α) := ⟨.inf⟩
 
@@ -108,29 +108,29 @@ def DVal.lt : DVal α → DVal α → Bool
   | .fin _, .inf => true
   | .inf, _ => false
 
-/-- lines 766-777: symmetric matrix of the distances between the chosen individuals, `-1` on the
+/-- lines 769-780: symmetric matrix of the distances between the chosen individuals, `-1` on the
 diagonal.  `D a b` is the distance computed for the pair of chosen positions `a < b`. -/
 def dist0 (D : Nat → Nat → α) (N : Nat) : Mat (DVal α) :=
   tab2 N (fun i j => if i = j then DVal.neg1 else DVal.fin (D (min i j) (max i j)))
 
-/-- lines 783-785: `while m > 0 and d[j] < d[s[m-1]]: s[m] = s[m-1]; m -= 1`;
+/-- lines 786-788: `while m > 0 and d[j] < d[s[m-1]]: s[m] = s[m-1]; m -= 1`;
 returns the row and the final `m`. -/
 def shiftLoop (lt : Nat → Nat → Bool) (j : Nat) : (m : Nat) → (Nat → Nat) → (Nat → Nat) × Nat
   | 0, s => (s, 0)
   | m + 1, s => if lt j (s m) then shiftLoop lt j m (upd s (m + 1) (s m)) else (s, m + 1)
 
-/-- lines 781-786 for one row: insertion sort of the indices `0..N-1` by `lt`.  The row is
+/-- lines 784-789 for one row: insertion sort of the indices `0..N-1` by `lt`.  The row is
 materialised as a list after every insertion (reads inside one insertion go through `look`). -/
 def sortRow (lt : Nat → Nat → Bool) (N : Nat) : List Nat :=
   forRange 1 (N - 1)
     (fun j (l : List Nat) => let r := shiftLoop lt j j (look l); tab N (upd r.1 r.2 j))
     (tab N (fun _ => 0))
 
-/-- lines 780-786: `sorted_indices`. -/
+/-- lines 783-789: `sorted_indices`. -/
 def sorted0 (dist : Mat (DVal α)) (N : Nat) : Mat Nat :=
   tab N (fun i => sortRow (fun a b => (look2 dist i a).lt (look2 dist i b)) N)
 
-/-- lines 794-802, the inner `for j in range(1, size)` with its two `break`s; the value is
+/-- lines 797-805, the inner `for j in range(1, size)` with its two `break`s; the value is
 `min_pos` after the loop.  Called with `j = 1`, `cnt = size - 1`. -/
 def innerCmp (dist : Mat (DVal α)) (sorted : Mat Nat) (i mp : Nat) : (j cnt : Nat) → Nat
   | _, 0 => mp
@@ -139,26 +139,26 @@ def innerCmp (dist : Mat (DVal α)) (sorted : Mat Nat) (i mp : Nat) : (j cnt : N
     let b := look2 dist mp (look2 sorted mp j)
     if a.lt b then i else if b.lt a then mp else innerCmp dist sorted i mp (j + 1) cnt
 
-/-- lines 792-802: search for the individual with the minimal distance vector. -/
+/-- lines 795-805: search for the individual with the minimal distance vector. -/
 def minPos (dist : Mat (DVal α)) (sorted : Mat Nat) (N size : Nat) : Nat :=
   forRange 1 (N - 1) (fun i mp => innerCmp dist sorted i mp 1 (size - 1)) 0
 
-/-- lines 809-812 for one row: bubble `mp` from wherever it is in positions `1..size-2` to
+/-- lines 812-815 for one row: bubble `mp` from wherever it is in positions `1..size-2` to
 position `size-1` (the row is materialised after every swap). -/
 def bubble (mp size N : Nat) (row : List Nat) : List Nat :=
   forRange 1 (size - 2)
     (fun j (l : List Nat) =>
       if look l j = mp then tab N (upd (upd (look l) j (look l (j + 1))) (j + 1) mp) else l) row
 
-/-- lines 805-807: row and column `mp` become `inf`. -/
+/-- lines 808-810: row and column `mp` become `inf`. -/
 def overwrite (dist : Mat (DVal α)) (N mp : Nat) : Mat (DVal α) :=
   tab2 N (fun a b => if b = mp ∨ a = mp then DVal.inf else look2 dist a b)
 
-/-- lines 805, 809-812 for every row. -/
+/-- lines 808, 812-815 for every row. -/
 def shuffleRows (sorted : Mat Nat) (N size mp : Nat) : Mat Nat :=
   tab N (fun i => bubble mp size N (sorted.getD i []))
 
-/-- lines 788-816: `while size > k`, run for `size = k+n, …, k+1`; returns `to_remove`. -/
+/-- lines 791-819: `while size > k`, run for `size = k+n, …, k+1`; returns `to_remove`. -/
 def truncLoop (N k : Nat) : (n : Nat) → Mat (DVal α) → Mat Nat → List Nat → List Nat
   | 0, _, _, rem => rem
   | n + 1, dist, sorted, rem =>
@@ -171,7 +171,7 @@ def toRemove (D : Nat → Nat → α) (N k : Nat) : List Nat :=
   let dist := dist0 D N
   truncLoop N k (N - k) dist (sorted0 dist N) []
 
-/-- lines 818-819: `for index in reversed(sorted(to_remove)): del chosen_indices[index]`. -/
+/-- lines 821-822: `for index in reversed(sorted(to_remove)): del chosen_indices[index]`. -/
 def delDesc (chosen rem : List Nat) : List Nat :=
   ((rem.mergeSort (fun a b => decide (a ≤ b))).reverse).foldl (fun l i => l.eraseIdx i) chosen
 
@@ -188,8 +188,8 @@ section Sel
 variable {α : Type} [DecidableEq α] [LT α] [DecidableLT α]
 
 /-- `selSPEA2(individuals, k)`: positions of the returned individuals.
-`N = len(individuals)`, `fits` = line-756 values, `D i j` = squared distance of individuals
-`i, j` (lines 770-776). -/
+`N = len(individuals)`, `fits` = line-759 values, `D i j` = squared distance of individuals
+`i, j` (lines 773-779). -/
 def selSPEA2 (dom : Nat → Nat → Bool) (N k : Nat) (fits : Nat → α) (D : Nat → Nat → α) : List Nat :=
   let chosen := chosen0 dom N
   if chosen.length < k then fill N fits k chosen
@@ -198,7 +198,7 @@ def selSPEA2 (dom : Nat → Nat → Bool) (N k : Nat) (fits : Nat → α) (D : N
 
 end Sel
 
-/-! ### quick-select (emo.py:824-859) — used only to obtain `kth_dist`
+/-! ### quick-select (emo.py:827-862) — used only to obtain `kth_dist`
 
 Arrays are lists; `none` = an index left the array (IndexError) or the fuel ran out. -/
 
@@ -220,7 +220,7 @@ def scanUp (a : List α) (x : α) : (fuel i1 : Nat) → Option Nat
     | none => none
     | some v => if v < x then scanUp a x fuel (i + 1) else some i
 
-/-- `_partition` (lines 844-859); `i1 = i + 1`, `j` as in the code, both before the round. -/
+/-- `_partition` (lines 847-862); `i1 = i + 1`, `j` as in the code, both before the round. -/
 def partitionLoop (x : α) : (fuel : Nat) → List α → (i1 j : Nat) → Option (List α × Nat)
   | 0, _, _, _ => none
   | fuel + 1, a, i1, j =>
